@@ -41,7 +41,15 @@ class WhileMixin:
         wname, targets, rest = why
         W: PyList = env[wname]
         others = self._result_lists(rest, env, wname)
-        summary = self._worklist_summary(st, wname, targets, rest, env, module, W, others)
+        tnames_ = [n.id for n in ast.walk(targets) if isinstance(n, ast.Name)]
+        carried = sorted({n.id for n in ast.walk(ast.Module(body=list(rest), type_ignores=[])) if isinstance(n, ast.Name) and isinstance(n.ctx, ast.Store)
+                          and n.id in env and n.id not in tnames_ and n.id != wname and n.id not in others})
+        summary = self._worklist_summary(st, wname, targets, rest, env, module, W, others, carried)
+        for name in carried:
+            vals = summary["carried"].get(name, [])
+            if vals:
+                from .values import AltV
+                env[name] = vals[0] if len(vals) == 1 else AltV(list(vals))
         # effects on the result lists
         over = Sym("while", where)
         total_lb = {name: 0 for name in others}
@@ -76,6 +84,35 @@ class WhileMixin:
         if st.orelse or not st.body:
             return False
         last = st.body[-1]
+        pre: List[ast.stmt] = []
+        if isinstance(last, ast.Assign) and len(last.targets) == 1 and isinstance(last.targets[0], ast.Tuple) and isinstance(last.value, ast.Tuple) \
+                and len(last.targets[0].elts) == len(last.value.elts) and all(isinstance(t, ast.Name) for t in last.targets[0].elts):
+            # a, x = f(a, x), x.attr : the right-hand sides see the old values; split it into temporaries, the descent last
+            tested0 = {n.id for n in ast.walk(st.test) if isinstance(n, ast.Name)}
+            cand = None
+            for t, v in zip(last.targets[0].elts, last.value.elts):
+                b0 = v
+                d0 = 0
+                while isinstance(b0, ast.Attribute):
+                    b0 = b0.value
+                    d0 += 1
+                if isinstance(b0, ast.Name) and b0.id == t.id and d0 >= 1 and t.id in tested0:
+                    cand = t.id
+            if cand is None:
+                return False
+            temps = []
+            for i, (t, v) in enumerate(zip(last.targets[0].elts, last.value.elts)):
+                tn = f"__tmp_{st.lineno}_{i}"
+                pre.append(ast.Assign(targets=[ast.Name(id=tn, ctx=ast.Store())], value=v))
+                temps.append((t.id, tn, v))
+            for tid, tn, v in temps:
+                if tid != cand:
+                    pre.append(ast.Assign(targets=[ast.Name(id=tid, ctx=ast.Store())], value=ast.Name(id=tn, ctx=ast.Load())))
+            dv = next(v for tid, tn, v in temps if tid == cand)
+            last = ast.Assign(targets=[ast.Name(id=cand, ctx=ast.Store())], value=dv)
+            for n in pre + [last]:
+                ast.copy_location(n, st.body[-1])
+                ast.fix_missing_locations(n)
         if not (isinstance(last, ast.Assign) and len(last.targets) == 1 and isinstance(last.targets[0], ast.Name)):
             return False
         var = last.targets[0].id
@@ -103,7 +140,12 @@ class WhileMixin:
         branch = loop.body[1]
         branch.test = st.test
         push = ast.Expr(value=ast.Call(func=ast.Attribute(value=ast.Name(id=wn, ctx=ast.Load()), attr="append", ctx=ast.Load()), args=[rhs], keywords=[]))
-        branch.body = list(st.body[:-1]) + [push]
+        if pre:
+            # the descent value was computed into a temporary before the other names were rebound
+            tmpname = next(a.targets[0].id for a in pre if isinstance(a.value, ast.AST) and a.value is rhs)
+            push = ast.Expr(value=ast.Call(func=ast.Attribute(value=ast.Name(id=wn, ctx=ast.Load()), attr="append", ctx=ast.Load()),
+                                           args=[ast.Name(id=tmpname, ctx=ast.Load())], keywords=[]))
+        branch.body = list(st.body[:-1]) + pre + [push]
         for n in ast.walk(tree):
             if not hasattr(n, "lineno") or getattr(n, "lineno", None) is None:
                 pass
@@ -194,8 +236,8 @@ class WhileMixin:
                     return "break"
             if isinstance(n, ast.While):
                 return "nested while"
-            if isinstance(n, ast.Name) and isinstance(n.ctx, (ast.Store, ast.Del)) and n.id in env and n.id not in tnames:
-                return f"the body rebinds `{n.id}`, which outlives the iteration"
+            if isinstance(n, ast.Name) and isinstance(n.ctx, ast.Del) and n.id in env and n.id not in tnames:
+                return f"the body deletes `{n.id}`"
             if isinstance(n, ast.Call) and isinstance(n.func, ast.Attribute) and isinstance(n.func.value, ast.Name) and n.func.value.id == w \
                     and n.func.attr not in ("append", "extend"):
                 return f"the worklist is modified by .{n.func.attr}()"
@@ -211,8 +253,9 @@ class WhileMixin:
                 names.append(n.id)
         return names
 
-    def _worklist_summary(self, st, wname, target, rest, env, module, W: PyList, others: List[str]) -> Dict[str, Any]:
-        init_keys = tuple(sorted({repr(_class_key(i)) for i in W.items}))
+    def _worklist_summary(self, st, wname, target, rest, env, module, W: PyList, others: List[str], carried: Optional[List[str]] = None) -> Dict[str, Any]:
+        carried = list(carried or [])
+        init_keys = tuple(sorted({repr(_class_key(i)) for i in W.items})) + tuple(repr(_class_key(env[c])) for c in carried)
         cache = self.shared.setdefault("while_summaries", {})
         ck = (module.name, st.lineno, init_keys)
         if ck in cache:
@@ -221,9 +264,10 @@ class WhileMixin:
         free = sorted({n.id for n in ast.walk(ast.Module(body=rest, type_ignores=[])) if isinstance(n, ast.Name) and n.id in env
                        and n.id not in tnames and n.id != wname and n.id not in others})
         params = ["__item__", wname] + others + free
+        ret = ast.Return(value=ast.Tuple(elts=[ast.Name(id=c, ctx=ast.Load()) for c in carried], ctx=ast.Load()))
         fn = ast.FunctionDef(name="__while_body__", args=ast.arguments(posonlyargs=[], args=[ast.arg(arg=p) for p in params], kwonlyargs=[],
                                                                         kw_defaults=[], defaults=[]),
-                             body=[ast.Assign(targets=[target], value=ast.Name(id="__item__", ctx=ast.Load()))] + list(rest),
+                             body=[ast.Assign(targets=[target], value=ast.Name(id="__item__", ctx=ast.Load()))] + list(rest) + [ret],
                              decorator_list=[], returns=None, type_comment=None)
         try:
             fn.type_params = []  # type: ignore[attr-defined]
@@ -240,7 +284,17 @@ class WhileMixin:
         seen_ev = set()
         raises: List[Tuple[V, str]] = []
         appended: Dict[str, List[V]] = {n: [] for n in others}
-        while pending:
+        # loop-carried names: the set of (classes of) values they can hold at the head of an iteration, grown to a fixpoint
+        carried_vals: Dict[str, List[V]] = {c: [env[c]] for c in carried}
+        carried_seen: Dict[str, set] = {c: {repr(_class_key(env[c]))} for c in carried}
+        rounds_left = 8
+        while pending or (carried and rounds_left and classes and self.__dict__.pop("_carried_grew", False)):
+            if not pending:
+                # a carried name gained a new class of value: every item class is evaluated again with it
+                rounds_left -= 1
+                pending = list(classes.values())
+                classes = {}
+                info = {}
             key = pending.pop()
             rk = repr(key)
             if rk in classes:
@@ -263,7 +317,15 @@ class WhileMixin:
                     o.created_in = "outer"
                     outs.append(o)
                 holder["item"], holder["wl"], holder["outs"] = item, wl, outs
-                return module, fn, [item, wl] + outs + [env[f] for f in free], {}, cls_q
+                from .values import AltV as _AltV
+                fvals = []
+                for f in free:
+                    if f in carried_vals:
+                        opts = carried_vals[f]
+                        fvals.append(opts[0] if len(opts) == 1 else _AltV(list(opts)))
+                    else:
+                        fvals.append(env[f])
+                return module, fn, [item, wl] + outs + fvals, {}, cls_q
 
             rows = []
             for p in child.explore(setup, max_paths=4000):
@@ -275,7 +337,7 @@ class WhileMixin:
                         raise AnalysisError(f"worklist loop body has a side effect the summary cannot carry ({ev.kind} {ev.data.get('target', ev.data.get('attr', ''))})",
                                             ev.where)
                     if ev.kind in ("may_raise", "attr_missing", "index_maybe_out_of_range", "unpack_opaque", "unpack_unknown_len", "unpack_mismatch",
-                                   "pop_maybe_empty", "recursion", "extcall"):
+                                   "pop_maybe_empty", "recursion", "extcall", "new_node", "node_ctor_arity", "call_arity"):
                         k2 = ev.kind + repr(sorted((a, repr(b)) for a, b in ev.data.items()))
                         if k2 not in seen_ev:
                             seen_ev.add(k2)
@@ -302,6 +364,13 @@ class WhileMixin:
                             appended[name].append(v)
                 rows.append({"pushes": pushes, "outs": {name: len(o.items) for name, o in zip(others, outs)}})
                 pending.extend(pushes)
+                if carried and isinstance(p.value, PyTuple) and len(p.value.items) == len(carried):
+                    for cname, cv in zip(carried, p.value.items):
+                        kk = repr(_class_key(cv))
+                        if kk not in carried_seen[cname]:
+                            carried_seen[cname].add(kk)
+                            carried_vals[cname].append(cv)
+                            self._carried_grew = True
             info[rk] = rows
         # greatest fixpoint of the length lower bounds
         lb: Dict[Tuple[Any, str], int] = {}
@@ -325,7 +394,7 @@ class WhileMixin:
                         lb[(rk, name)] = best
                         changed = True
         out = {"classes": classes, "lb": {(classes[rk], name): (0 if v >= INF else v) for (rk, name), v in lb.items()},
-               "appended": appended, "events": events, "raises": raises}
+               "appended": appended, "events": events, "raises": raises, "carried": carried_vals}
         # keys of lb are looked up by class key objects: normalise through repr
         out["lb"] = _ReprDict({(repr(k), n): v for (k, n), v in out["lb"].items()})
         cache[ck] = out
@@ -348,6 +417,10 @@ def _inside_inner_loop(body, node) -> bool:
 def _class_key(v: V):
     if isinstance(v, NodeV):
         return ("node", tuple(sorted(v.kinds)))
+    if type(v).__name__ == "NewNode":
+        return ("new", v.cls)
+    if type(v).__name__ == "AltV":
+        return ("alt", tuple(sorted(repr(_class_key(o)) for o in v.options)))
     if isinstance(v, Const):
         return ("const", repr(v.v))
     if isinstance(v, (PyTuple,)):
@@ -361,6 +434,8 @@ def _representative(key, wname: str) -> V:
     tag = key[0]
     if tag == "node":
         return NodeV(f"{wname}[*]", set(key[1]))
+    if tag == "new":
+        return NodeV(f"{wname}[*]", {key[1]})
     if tag == "const":
         return Const(ast.literal_eval(key[1]))
     if tag == "tuple":
